@@ -142,7 +142,8 @@ def run(ctx, model):
     # ---- request_path(class, instance, attribute)
     cands = [0, 1, 2, 0x6b, 255, 256, 65535, 65536, 2 ** 32 - 1, b"\x01", b"\x6b", b"\x01\x02", b"\x00\x01\x00\x00", b""]
     for _ in range(ctx.budget(400, 4000)):
-        c, i, a = rng.choice(cands[1:]), rng.choice(cands[1:]), rng.choice(cands + [b"", b"", 0])
+        # instance 0 (class-level attributes) and class 0 are ordinary ids: 0 must not be mistaken for 'absent'
+        c, i, a = rng.choice(cands[:-1]), rng.choice(cands[:-1] + [0, b"\x00"]), rng.choice(cands + [b"", b"", 0])
         if rng.random() < 0.3:
             i = rng.getrandbits(rng.choice([8, 16, 32]))
         r = call(request_path, c, i, a)
